@@ -1267,12 +1267,26 @@ func (a *action) opModify(p []string, m *mnode, d virtual.Directory) {
 	}
 }
 
+func describeNode(m *mnode) string {
+	switch {
+	case m == nil:
+		return "absent"
+	case m.kind == kindDir:
+		return fmt.Sprintf("dir cas=%v loaded=%v", m.ref != nil, m.realLoaded)
+	case m.kind == kindSymlink:
+		return fmt.Sprintf("symlink %q", m.target)
+	case m.isCASFile():
+		return fmt.Sprintf("casfile %s exec=%v", m.blob.digest, m.exec)
+	}
+	return fmt.Sprintf("localfile %d bytes", len(m.local.data))
+}
+
 func sameContentLeaf(x, y *mnode) bool {
 	if x == y {
 		return true
 	}
 	if x.kind == kindFile && y.kind == kindFile && x.isCASFile() && y.isCASFile() {
-		return x.blob == y.blob && x.exec == y.exec
+		return x.blob.digest == y.blob.digest && x.exec == y.exec
 	}
 	if x.kind == kindSymlink && y.kind == kindSymlink {
 		// Symbolic links with equal targets may share one node.
@@ -1325,7 +1339,7 @@ func (a *action) opRename(p []string, m *mnode, d virtual.Directory) {
 	}
 	lazyMove := src.kind == kindDir && src.ref != nil && !src.realLoaded
 	_, _, s := d.VirtualRename(e.ctx, comp(srcName), d2, comp(dstName))
-	a.logf("rename %s %q -> %s %q (dst exists=%v) : %s", pathString(p), srcName, pathString(p2), dstName, dstExists, statusName(s))
+	a.logf("rename %s %q (%s) -> %s %q (dst %s) : %s", pathString(p), srcName, describeNode(src), pathString(p2), dstName, describeNode(dst), statusName(s))
 	a.h("rename", statusName(s))
 	a.noteLoaded(p, m)
 	a.noteLoaded(p2, m2)
